@@ -45,3 +45,13 @@ claim("C02", "proof",
       "(diagnostic); harness.  Point kernels at +-inf (Eigen fast-math) are outside the sampled domain; see DESIGN.md.",
       "Coq proof (case analysis over extended reals, induction over the tape) + differential correspondence",
       "DESIGN.md section 6, C02")
+
+claim("C08", "proof",
+      "Coq theorems: the opcode table regenerated from opcode.hpp on every run equals the frozen numbering, codes are "
+      "distinct bytes below LAST_OP <= 254 and never END_OF_ITEM; string / word / variable-section / tree round-trip "
+      "theorems about a byte-for-byte model of serializer.cpp and deserializer.cpp; tie: the bytes Archive::serialize "
+      "writes must equal the model's bytes exactly and the reloaded DAGs, names, docs and variable bindings must equal "
+      "the model's; oracle: reloaded shapes evaluate like the originals with the same named-variable values.",
+      "Trusted: Coq kernel, opcode translator, extraction, driver, harness.  Oracle clauses are outside the codec model.",
+      "Coq proof (reflexivity on the regenerated table; induction over strings / the walk) + byte-exact differential correspondence",
+      "DESIGN.md section 6, C08")
